@@ -43,9 +43,19 @@ def _unwrap_walrus(node: ast.expr) -> ast.expr:
     return node
 
 
+class _WalrusToName(ast.NodeTransformer):
+    def visit_NamedExpr(self, node: ast.NamedExpr):  # noqa: N802
+        return ast.copy_location(ast.Name(node.target.id, ast.Load()), node) if isinstance(node.target, ast.Name) else node
+
+
 def _s(node: ast.expr) -> str:
-    """Normalised operand text: walrus targets stand for their value; `set(x)`/`frozenset(x)` are x."""
+    """Normalised operand text: a top-level walrus stands for its value, a nested one for the name it
+    binds (later code refers to it by that name); `set(x)`/`frozenset(x)` are x."""
     node = _unwrap_walrus(node)
+    if any(isinstance(n, ast.NamedExpr) for n in ast.walk(node)):
+        import copy
+
+        node = _WalrusToName().visit(copy.deepcopy(node))
     while (
         isinstance(node, ast.Call)
         and isinstance(node.func, ast.Name)
